@@ -5202,3 +5202,101 @@ def snapshot_atomic_rules(ctx):
                 ctx._ob(bool(ok_), ctx.sample('arg-flow', c.fn, c.line, 'the root handed to ReadTransaction::new comes from the registration'))
                 if not ok_:
                     ctx.violate('arg-flow|%s|root-not-from-registration' % c.fn.path, 'the root passed to ReadTransaction::new does not come from the registration of the reader', c.fn, c.line)
+
+
+def open_reads_within_length_rules(ctx):
+    """Opening a storage reads the magic number and then the header straight from offset 0.  Each of those
+    reads is preceded, on every path, by a comparison of the storage length with at least the number of
+    bytes read -- or by the initialisation branch, which sizes the storage itself."""
+    ctx.set_rule('C20.R7', 'the direct reads of an open (magic number, header) stay within the storage length that was checked')
+    f = ctx.fn(TM + '::new')
+    if f is None:
+        return
+    s_ = core.sym(f)
+    rds = [c for c in f.calls if c.matches(PCF + '::read_direct') and not f.blocks[c.bb]['c']]
+    ctx.check(len(rds) >= 2, 'floor|%s|read_direct' % f.path, 'TransactionalMemory::new reads the magic number and the header directly (found %d reads)' % len(rds), f, f.line)
+    resize_bbs = {c.bb for c in f.calls if c.matches(PCF + '::resize')}
+
+    def const_int(t):
+        if t[0] == 'const':
+            try:
+                return int(t[2])
+            except (TypeError, ValueError):
+                return None
+        if t[0] == 'call':
+            cs = core.CallSite(f, t[1], f.blocks[t[1]]['t'])
+            # MAGICNUMBER.len(): the length of a constant array
+            if (cs.callee or '').endswith('::len') and cs.t['a']:
+                a0 = s_.operand(cs.t['a'][0])
+                if a0[0] == 'place':
+                    a0 = a0[1]
+                if a0[0] == 'const':
+                    m_ = re.search(r'\[[^;\]]+;\s*(\d+)\]', str(a0[1]))
+                    if m_:
+                        return int(m_.group(1))
+            return None
+        return None
+
+    def is_len(t, depth=0):
+        if depth > 4:
+            return False
+        if t[0] == 'place':
+            return is_len(t[1], depth + 1)
+        if t[0] == 'call':
+            cs = core.CallSite(f, t[1], f.blocks[t[1]]['t'])
+            if cs.matches(PCF + '::raw_file_len'):
+                return True
+            return bool(cs.t['a']) and core.flows_from_call(f, cs.t['a'][0], PCF + '::raw_file_len')
+        return False
+    # edges on which "length >= K" is known, per K
+    known = []
+    for bb in range(f.nb):
+        t = f.blocks[bb]['t']
+        if t['k'] != 'sw' or f.blocks[bb]['c']:
+            continue
+        term = s_.operand(t['o'])
+        neg = False
+        while term[0] == 'not':
+            term = term[1]
+            neg = not neg
+        if term[0] != 'cmp' or term[1] not in ('Lt', 'Ge', 'Gt', 'Le'):
+            continue
+        a, b = term[2], term[3]
+        if is_len(a) and const_int(b) is not None:
+            k, op = const_int(b), term[1]
+        elif is_len(b) and const_int(a) is not None:
+            k, op = const_int(a), {'Lt': 'Gt', 'Gt': 'Lt', 'Le': 'Ge', 'Ge': 'Le'}[term[1]]
+        else:
+            continue
+        for si, (tgt, lab) in enumerate(f.succ(bb)):
+            res = (lab != '0') != neg
+            # len >= K holds on: Ge true, Lt false; len > K (>= K+1) on Gt true, Le false
+            if (op == 'Ge' and res) or (op == 'Lt' and not res):
+                known.append(((bb, si), k))
+            elif (op == 'Gt' and res) or (op == 'Le' and not res):
+                known.append(((bb, si), k + 1))
+    for c in rds:
+        ln = const_int(s_.operand(c.t['a'][2])) if len(c.t['a']) > 2 else None
+        off = const_int(s_.operand(c.t['a'][1])) if len(c.t['a']) > 1 else None
+        ctx.check(ln is not None and off == 0, 'const|%s|read_direct-args|%s' % (f.path, c.line), 'read_direct is called with constant offset 0 and a constant length', f, c.line)
+        if ln is None:
+            continue
+        good = {e for (e, k) in known if k >= ln}
+        # an empty storage (length 0) is initialised before anything is read back: its magic number reads
+        # as zeros, which forces the initialisation branch (C12.R7 checks that branch's guard); that
+        # value correlation is beyond a path-insensitive reachability, so the length-0 edges are cut too
+        empty = set()
+        for bb in range(f.nb):
+            t = f.blocks[bb]['t']
+            if t['k'] != 'sw' or f.blocks[bb]['c']:
+                continue
+            term = s_.operand(t['o'])
+            if term[0] == 'cmp' and term[1] in ('Gt', 'Ne', 'Eq') and is_len(term[2]) and const_int(term[3]) == 0:
+                for si, (tgt, lab) in enumerate(f.succ(bb)):
+                    if (term[1] in ('Gt', 'Ne') and lab == '0') or (term[1] == 'Eq' and lab != '0'):
+                        empty.add((bb, si))
+        r = core.reach(f, cut_edges=good | empty, cut_blocks=resize_bbs)
+        bad = c.bb in r['term']
+        ctx._ob(not bad, ctx.sample('guard', f, c.line, 'read of %d bytes at offset 0 only after the length was found >= %d (or the storage was initialised)' % (ln, ln)))
+        if bad:
+            ctx.violate('guard|%s|read-past-length|%d' % (f.path, ln), 'TransactionalMemory::new can read %d bytes at offset 0 of a storage whose length was not checked to be at least %d: a read past the end of the storage' % (ln, ln), f, c.line)
